@@ -397,6 +397,7 @@ func (r *registryImpl) Filter(opts FilterOptions) (Registry, error) {
 			continue
 		}
 
+		verifGate("filter.register", name)
 		if err := registerFunc(); err != nil {
 			return nil, err
 		}
